@@ -1579,11 +1579,87 @@ fn replay(args: &[String]) -> i32 {
     code
 }
 
+/// Stub-fidelity interface: read one JSON scenario per line
+/// {"n": <children>, "ops": [["stop",i,sig] | ["cont",i] | ["exit",i,code] | ["kill",i,sig] | ["drain"]]}
+/// and print, per "drain", the reports a WNOHANG wait loop collects from the SimKernel.
+fn kernel_cmd() -> i32 {
+    use std::io::BufRead;
+    let stdin = std::io::stdin();
+    for line in stdin.lock().lines() {
+        let line = match line {
+            Ok(l) => l,
+            Err(_) => break,
+        };
+        if line.trim().is_empty() {
+            continue;
+        }
+        let v: Value = match serde_json::from_str(&line) {
+            Ok(v) => v,
+            Err(_) => {
+                println!("null");
+                continue;
+            }
+        };
+        let n = v["n"].as_u64().unwrap_or(1) as usize;
+        let wl = Arc::new(Mutex::new(World::new(Source::Replay { steps: vec![], pos: 0 }, false, false)));
+        {
+            let mut w = wl.lock().unwrap();
+            let mut idxs = Vec::new();
+            for i in 0..n {
+                idxs.push(i);
+                w.procs.push(Proc { pid: 1000 + i as i32, job: 0, pgid: 1000, state: PState::Run, pending: Pending::None });
+            }
+            w.jobs.push(MJob { gid: 1000, procs: idxs });
+        }
+        let mut k = Kernel { w: wl.clone() };
+        let mut out: Vec<Value> = Vec::new();
+        for op in v["ops"].as_array().cloned().unwrap_or_default() {
+            let name = op[0].as_str().unwrap_or("");
+            let i = op[1].as_u64().unwrap_or(0) as usize;
+            let a = op[2].as_i64().unwrap_or(0) as i32;
+            let st = match name {
+                "stop" => Some(Step::Stop { p: i, sig: a }),
+                "cont" => Some(Step::Cont { p: i }),
+                "exit" => Some(Step::Exit { p: i, code: a }),
+                "kill" => Some(Step::Kill { p: i, sig: a }),
+                _ => None,
+            };
+            if let Some(st) = st {
+                wl.lock().unwrap().apply_world(&st);
+                continue;
+            }
+            if name == "drain" {
+                let mut reps: Vec<String> = Vec::new();
+                loop {
+                    use cv::SimKernel;
+                    match k.waitpid(-1, WNOHANG | libc::WUNTRACED | libc::WCONTINUED) {
+                        Ok(WaitStatus::Exited(p, c)) => reps.push(format!("exited {} {}", p.as_raw() - 1000, c)),
+                        Ok(WaitStatus::Signaled(p, sg, _)) => reps.push(format!("signaled {} {}", p.as_raw() - 1000, sg as i32)),
+                        Ok(WaitStatus::Stopped(p, sg)) => reps.push(format!("stopped {} {}", p.as_raw() - 1000, sg as i32)),
+                        Ok(WaitStatus::Continued(p)) => reps.push(format!("continued {}", p.as_raw() - 1000)),
+                        Ok(WaitStatus::StillAlive) => break,
+                        Ok(_) => break,
+                        Err(_) => {
+                            reps.push("echild".to_string());
+                            break;
+                        }
+                    }
+                }
+                reps.sort();
+                out.push(json!(reps));
+            }
+        }
+        println!("{}", serde_json::to_string(&out).unwrap());
+    }
+    0
+}
+
 fn main() {
     let args: Vec<String> = std::env::args().collect();
     let code = match args.get(1).map(|s| s.as_str()) {
         Some("worker") => worker(&args[2..]),
         Some("replay") => replay(&args[2..]),
+        Some("kernel") => kernel_cmd(),
         Some("replay2") => {
             let text = std::fs::read_to_string(&args[2]).unwrap();
             let v: Value = serde_json::from_str(&text).unwrap();
